@@ -19,7 +19,7 @@ RULE = ("endings = {orderly release, close (FIN and RST) after every byte offset
         "resource or held a session instance")
 ASSUMPTIONS = ["'at quiescence' = after the disconnect hook was observed and the worker/selector slot count settled, awaited with a 10 s watchdog (expiry = inconclusive unless a server thread died)",
                "connections whose handshake was refused are only required to see <= 1 hook call and a closed socket"]
-REQUIRED_REACH = ["ending_ok", "offset_endings", "resources_closed_once", "session_instances_dropped", "witness_unaffected", "timeout_endings", "security_endings", "callback_endings", "churn_connections_checked", "injected_yields", "application_hooks_that_raised"]
+REQUIRED_REACH = ["ending_ok", "offset_endings", "resources_closed_once", "session_instances_dropped", "witness_unaffected", "timeout_endings", "security_endings", "callback_endings", "churn_connections_checked", "injected_yields", "application_hooks_that_raised", "resources_tracked_by_oneway_calls"]
 SHARD_TIMEOUT = {"quick": 240, "thorough": 3000}
 
 
@@ -73,6 +73,20 @@ def make_env(P, servertype, commtimeout, linger=30.0, pool=(2, 40), variant=None
 
         def whoami(self):
             return ctx.client._vserial
+
+        @P.server.oneway
+        def track_ow(self, serial):
+            # a oneway call tracks a resource: it belongs to the connection the call came in on (the caller passes that connection's serial)
+            with world.lock:
+                world.rid += 1
+                r = Res(world.rid)
+            ctx.track_resource(r)
+            e = world.entry(serial)
+            e["tracked"].append(r)
+            e["ow_done"] = e.get("ow_done", 0) + 1
+
+        def ow_done(self, serial):
+            return world.entry(serial).get("ow_done", 0)
 
         def noop(self, pad):
             return len(pad)
@@ -381,6 +395,7 @@ class Churner(threading.Thread):
         self.fx, self.sername, self.plan = fx, sername, plan
         self.serials = []       # (serial, ntrack, ending)
         self.dropped = []       # connections the daemon accepted and then dropped without an answer
+        self.oneway_tracked = 0
         self.error = None
 
     def run(self):
@@ -404,6 +419,15 @@ class Churner(threading.Thread):
                     continue
                 r = c.invoke("svc", "setup", (ntrack, 0), {}, ser)
                 serial = ser.loads(r.data)
+                if ntrack >= 1 and ending in ("fin", "rst") and serial % 2 == 0:
+                    # one more resource, tracked by a oneway call (served by a thread of its own); the connection ends once that call has been served
+                    c.invoke("svc", "track_ow", (serial,), {}, ser, flags=wire.F_ONEWAY, read=False)
+                    end = time.monotonic() + 8.0
+                    while ser.loads(c.invoke("svc", "ow_done", (serial,), {}, ser).data) < 1:
+                        if time.monotonic() > end:
+                            raise RuntimeError("oneway call was not served within 8 s")
+                        time.sleep(0.002)
+                    self.oneway_tracked += 1
                 self.serials.append((serial, ntrack, ending))
                 if ending == "half":
                     c.send(wire.encode(wire.INVOKE, 0, 9, ser.serializer_id, b"x" * 30)[:21])
@@ -469,6 +493,7 @@ def run_churn(fx, world, rec, r, sername, nthreads, rounds, plans=None):
             return False
         ent["conn"] = None
         rec.count("churn_connections_checked")
+    rec.count("resources_tracked_by_oneway_calls", sum(t.oneway_tracked for t in ths))
     for t in ths:
         if t.dropped:
             # not a clause of C13 by itself (C05/C18 territory); counted so that the evidence shows it
@@ -527,7 +552,8 @@ def run_shard(shard, rec):
         fx, world = make_env(P, shard["servertype"], 0.0, 30.0, pool=(1, 12), variant=fixture.variant_for(rec.seed, "c13", repr(sorted(shard.items()))))
         rec.count("fixture_variant:" + fx.variant)
         try:
-            yieldinj.enable(("Pyro5/svr_threads.py", "Pyro5/svr_multiplex.py"), 0.2, rec.seed * 13 + shard["rep"], max_sleep=0.003)
+            yieldinj.enable(("Pyro5/svr_threads.py", "Pyro5/svr_multiplex.py"), 0.2, rec.seed * 13 + shard["rep"], max_sleep=0.003,
+                            delay_funcs=(("Pyro5/server.py", "run", 0.004),))      # (the thread of a oneway call gets going late)
             for h in range(shard["histories"]):
                 if rec.should_stop():
                     break
